@@ -17,7 +17,7 @@ import (
 )
 
 func init() {
-	monitors["C13"] = &monitor{scenarios: c13Scenarios, run: c13Run, scenarioLimit: 90 * time.Second}
+	monitors["C13"] = &monitor{scenarios: c13Scenarios, run: c13Run, scenarioLimit: 240 * time.Second}
 }
 
 func c13Scenarios(cfg runCfg) []Scenario {
